@@ -162,7 +162,14 @@ def check_query(out, nodes, q, res, mline, findings, stats, budget):
                 " ".join(res["args"]), res["cwd"], sorted(gs), sorted(want), sorted(extra), sorted(missing)), rp)
         else:
             ok = False
-    if Counter(got) != Counter(model):
+    # the code follows ONE of the two model variants: the path enumeration (C20-F1) or its de-duplication
+    dedup = [vlib.unhxs(x) for x in f[2].split(",")] if len(f) > 2 and f[2] else (model if len(f) <= 2 else [])
+    if Counter(got) == Counter(model):
+        if Counter(model) != Counter(dedup):
+            stats["variant_paths"] = stats.get("variant_paths", 0) + 1
+    elif Counter(got) == Counter(dedup):
+        stats["variant_dedup"] = stats.get("variant_dedup", 0) + 1
+    else:
         stats["model_mismatch"] += 1
         stats.setdefault("first_mismatch", rp)
     return ok
@@ -282,6 +289,52 @@ def rebuild_prediction(out, grog, r, tier, stats):
     stats["rebuild_cases_with_reexecution"] = rebuilt_nonempty
 
 
+def inprocess_tie(out, worlds, r, stats):
+    """GetAncestors / GetDescendants / GetDependencies / GetDependants as multisets of nodes:
+    Select.ancestors_paths / descendants_paths / Graph.deps / Graph.dependants vs the real dag graph."""
+    try:
+        h = vlib.build_harness("select")
+    except vlib.HarnessUnavailable as e:
+        out.notes.append("inprocess_tie: unavailable (%s)" % str(e)[-500:])
+        return False
+    lines, meta = [], []
+    for nodes, _ in worlds:
+        en = sl.enc_nodes(nodes)
+        for n in {r.below(len(nodes)), r.below(len(nodes)), len(nodes) - 1, 0}:
+            for cmd in ("ancestors", "descendants", "direct"):
+                lines.append("%s\t%s\t-\t%d" % (cmd, en, n)); meta.append((nodes, cmd, n))
+    _, model, _ = vlib.run_lines(vlib.build_driver("select"), lines)
+    rc, impl, err = vlib.run_lines(h, lines)
+    if rc != 0 or len(impl) != len(lines) or len(model) != len(lines):
+        raise RuntimeError("select harness/driver failed on traversal lines rc=%s %d/%d/%d %s" % (rc, len(impl), len(model), len(lines), err[-300:]))
+    mism = 0
+    for (nodes, cmd, n), a, m in zip(meta, impl, model):
+        if a != m:
+            # ... or the de-duplicated variant of the enumeration
+            ma = m.split("\t")
+            if not (cmd != "direct" and len(ma) > 1 and a == "ms\t" + ",".join(str(x) for x in sorted(set(sl.idxs(ma[1]))))):
+                mism += 1
+                if mism == 1:
+                    first = (nodes, cmd, n, a, m)
+            else:
+                stats["inprocess_variant_dedup"] = stats.get("inprocess_variant_dedup", 0) + 1
+        f = a.split("\t")
+        if cmd != "direct" and f[0] == "ms":
+            got = set(sl.idxs(f[1])) if len(f) > 1 else set()
+            want = sl.strict_ancestors(nodes, n) if cmd == "ancestors" else sl.ref_rdeps(nodes, n)
+            if got != want:
+                out.violation("Get%s(%s) returns the node set %s, the graph says %s" % (
+                    cmd.capitalize(), sl.label_of(nodes[n]), sorted(got), sorted(want)), {"nodes": nodes, "cmd": cmd, "n": n, "impl": a, "tie": "in-process"})
+    if mism and not out.violations:
+        nodes, cmd, n, a, m = first
+        out.violation("correspondence Select.ancestors_paths/descendants_paths/Graph.dependants ~ dag.GetAncestors/GetDescendants/GetDependants broke on "
+                      "%d cases: %s %d: impl=%s model=%s; no oracle of C20 fails" % (mism, cmd, n, a[:200], m[:200]),
+                      {"correspondence": "multiset of nodes returned by the traversal", "nodes": nodes, "cmd": cmd, "n": n, "impl": a, "model": m}, no_input=True)
+    stats["inprocess_traversals"] = len(lines)
+    stats["inprocess_mismatches"] = mism
+    return True
+
+
 def run(out, tier):
     r = vlib.Rng(vlib.seed())
     findings = {f["class"]: f for f in vlib.known_findings("C20")}
@@ -338,9 +391,10 @@ def run(out, tier):
     for wi in range(1, min(len(worlds), 13 if tier == "quick" else 80)):
         inverse_check(out, grog, os.path.join(base, "ws%d" % wi), env, worlds[wi][0], r, stats, budget)
     rebuild_prediction(out, grog, r, tier, stats)
+    inproc = inprocess_tie(out, worlds, r, stats)
     stats["by_kind"] = dict(stats["by_kind"])
     out.cov.update({
-        "evaluations": len(jobs) + stats["inverse_pairs"] + stats.get("rebuild_cases", 0),
+        "evaluations": len(jobs) + stats["inverse_pairs"] + stats.get("rebuild_cases", 0) + stats.get("inprocess_traversals", 0),
         "distinct_nontrivial": len(nontriv),
         "rule": "%d generated workspaces (1-10 nodes, packages {'', a, a/b, ab}, aliases incl. chains, tags, platforms, bin outputs, input "
                 "files, duplicate dependency entries) x %d queries (deps/rdeps with and without -t, --target-type, tags, platform; owners with "
@@ -350,7 +404,7 @@ def run(out, tier):
         "traces_validated_against_impl": len(jobs),
         "input_distribution": stats,
         "cli_tie": {"available": True, "queries": len(jobs)},
-        "inprocess_tie": "GetAncestors/GetDescendants multisets are tied in-process by the C12/C19 checks (same harness)",
+        "inprocess_tie": inproc,
     })
     out.assumptions += [
         "input paths are clean relative paths (no '.', '..', doubled slashes, globs)",
